@@ -27,6 +27,12 @@ where
     where
         I: IntoIterator<Item = Pixel<Self::Color>>,
     {
+        // DrawTarget contract: pixels outside the drawable area are discarded
+        let bounding_box = self.bounding_box();
+        let pixels = pixels
+            .into_iter()
+            .filter(|pixel| bounding_box.contains(pixel.0));
+
         for pixel in pixels {
             let x = pixel.0.x as u16;
             let y = pixel.0.y as u16;
@@ -44,7 +50,12 @@ where
     {
         use crate::batch::DrawBatch;
 
-        self.draw_batch(item)
+        // DrawTarget contract: pixels outside the drawable area are discarded
+        let bounding_box = self.bounding_box();
+        self.draw_batch(
+            item.into_iter()
+                .filter(|pixel| bounding_box.contains(pixel.0)),
+        )
     }
 
     fn fill_contiguous<I>(&mut self, area: &Rectangle, colors: I) -> Result<(), Self::Error>
